@@ -332,6 +332,17 @@ func GenTarget(t *rapid.T, label string) *AConf {
 		for j := 0; j < n; j++ {
 			v.Rules = append(v.Rules, genRule(t, v, fmt.Sprintf("r%d", j+1), fmt.Sprintf("%sv%dr%d", label, i, j)))
 		}
+		// Hand-chosen names of the shape <name>-<n> (raw rules) may look
+		// like the names the tool generates on a clash.
+		if len(v.Rules) >= 2 && rapid.IntRange(0, 7).Draw(t, fmt.Sprintf("%sv%dclash", label, i)) == 0 {
+			v.Rules[len(v.Rules)-1].Name = v.Rules[0].Name + "-1"
+		}
+		if len(v.Groups) > 0 && rapid.IntRange(0, 7).Draw(t, fmt.Sprintf("%sv%dgclash", label, i)) == 0 {
+			gs := sortedKeys(v.Groups)
+			if len(gs) >= 2 {
+				v.renameGroup(gs[1], gs[0]+"-1")
+			}
+		}
 		c.Vsys = append(c.Vsys, v)
 	}
 	return c
